@@ -10,7 +10,9 @@ m = re.search(r'TARGETED = (\{.*?\n\})', src, re.S)
 T = ast.literal_eval(m.group(1))
 for name in sorted(os.listdir('/verif/seeded')):
     if name.startswith('C') and os.path.isdir('/verif/seeded/' + name):
-        print(name, " ".join(T.get(name, [name.split('_')[0]])))
+        t = T.get(name, [name.split('_')[0]])
+        if t:          # (an empty list: a kept seed that does not break the property as stated — DESIGN.md §11)
+            print(name, " ".join(t))
 PY
 : > /tmp/seed_targeted.out
 xargs -P $J -L 1 bash -c 'tools/seed_try.sh "$@" 2>&1 | grep "^try_" >> /tmp/seed_targeted.out' _ < /tmp/seed_targeted.list
